@@ -8,9 +8,10 @@ SPEC = dict(
         "delays >= one interval (shorter delays are outside the statement)",
         "Drain is followed only by ticks and Stop",
         "operations after Stop are issued once the wheel's run loop has observed the stop",
-        "the wheel has a single owner goroutine and callers only use channels; concurrent callers are exercised under -race by C17",
+        "under -race (real 1 ms ticker) only schedule-independent clauses are asserted: exactly-once, latest value, removed never fires, Drain hands over each pending task once",
     ],
     runs=[
-        dict(pkg="./lib/collection", run="^TestVerifC10", timeout=240, timeout_thorough=3000),
+        dict(pkg="./lib/collection", run="^TestVerifC10(Systematic|Random)$", timeout=240, timeout_thorough=3000),
+        dict(pkg="./lib/collection", run="^TestVerifC10Race$", race=True, timeout=300, timeout_thorough=3000),
     ],
 )
